@@ -369,6 +369,7 @@ func init() {
 			guard(r, func() { ruleL1(r, backfillExempt) })
 			guard(r, func() { ruleMergeQueued(r) })
 			guard(r, func() { ruleReaderState(r) }) // rollback finds the offsets to release with a reader positioned by Seek: a stale position releases another row
+			guard(r, func() { ruleReplayOrder(r) }) // a merge result replayed out of order overwrites a later merge of the same row (KF4)
 			guard(r, func() { ruleRecordMerge(r) })
 			guard(r, func() { ruleMergeReentrant(r) })
 			guard(r, func() { ruleUnits(r, "C09.units", unitsText, 10, applyUnitFns("numeric", "string")) })
